@@ -73,6 +73,20 @@ func (core *JApiCore) buildUserTypes() *jerr.JApiError {
 		return adoptError(err)
 	}
 
+	// Every type gets the rules before any type is loaded: looking up the types
+	// a type uses loads those types, and a loaded type accepts no more rules.
+	err = core.userTypes.Each(func(k string, ut schema.Schema) error {
+		for n, r := range core.rules {
+			if err := ut.AddRule(n, r); err != nil {
+				return jschemaToJAPIError(err, core.rawUserTypes.GetValue(k))
+			}
+		}
+		return nil
+	})
+	if err != nil {
+		return adoptError(err)
+	}
+
 	err = core.userTypes.Each(func(n string, _ schema.Schema) error {
 		return core.compileUserTypeWithAllDependencies(n)
 	})
@@ -92,13 +106,6 @@ func (core *JApiCore) compileUserTypeWithAllDependencies(name string) error {
 	}
 
 	dd := core.rawUserTypes
-
-	// Add rules before we try to do something with the type.
-	for n, r := range core.rules {
-		if err := currUT.AddRule(n, r); err != nil {
-			return jschemaToJAPIError(err, dd.GetValue(n))
-		}
-	}
 
 	tt, err := fetchUsedUserTypes(currUT, core.userTypes)
 	if err != nil {
